@@ -511,7 +511,7 @@ func runHistCase(o *Out, ci int, hc *histCase, nops int, distinct map[string]boo
 				}
 			}
 			if !ok && !snapSame(snapOf(b, sol), before) {
-				violate("C07", "rejected-execute-changed-solution", role, diffSnap(before, snapOf(b, sol)))
+				violate("C07", "rejected-execute-changed-solution", role+"|"+changedParts(before, snapOf(b, sol)), diffSnap(before, snapOf(b, sol)))
 			}
 			if ok && !u.IsPlanned() {
 				violate("C07", "execute-succeeded-unit-not-planned", role, "Execute returned true, unit is not planned")
@@ -555,7 +555,7 @@ func runHistCase(o *Out, ci int, hc *histCase, nops int, distinct map[string]boo
 				}
 			}
 			if !ok && !snapSame(snapOf(b, sol), before) {
-				violate("C07", "rejected-execute-changed-solution", role, diffSnap(before, snapOf(b, sol)))
+				violate("C07", "rejected-execute-changed-solution", role+"|"+changedParts(before, snapOf(b, sol)), diffSnap(before, snapOf(b, sol)))
 			}
 		case kind < 75: // un-plan a root unit, sometimes a member
 			pl := unitsOf(sol, func(u nextroute.SolutionPlanUnit) bool { return u.IsPlanned() })
@@ -594,7 +594,7 @@ func runHistCase(o *Out, ci int, hc *histCase, nops int, distinct map[string]boo
 			if !ok {
 				rejectedKinds["unplan-"+role] = true
 				if !snapSame(after, before) {
-					violate("C07", "rejected-unplan-changed-solution", role, diffSnap(before, after))
+					violate("C07", "rejected-unplan-changed-solution", role+"|"+changedParts(before, after), diffSnap(before, after))
 				}
 			} else if u.IsPlanned() {
 				violate("C07", "unplan-succeeded-unit-still-planned", role, "UnPlan returned true, unit is still planned")
@@ -623,7 +623,7 @@ func runHistCase(o *Out, ci int, hc *histCase, nops int, distinct map[string]boo
 			after := snapOf(b, sol)
 			o.Count(fmt.Sprintf("vehicle-unplan:ok=%v", ok))
 			if !ok && !snapSame(after, before) {
-				violate("C07", "rejected-unplan-changed-solution", "vehicle", diffSnap(before, after))
+				violate("C07", "rejected-unplan-changed-solution", "vehicle|"+changedParts(before, after), diffSnap(before, after))
 			}
 			if ok && n > 0 {
 				left := 0
@@ -716,6 +716,20 @@ func runHistCase(o *Out, ci int, hc *histCase, nops int, distinct map[string]boo
 		o.Count("feature:" + f)
 	}
 	o.Sample(map[string]any{"features": c.Features, "ops": hc.Ops, "uc": uc})
+}
+
+// changedParts: which parts of the snapshot differ (R routes, T times, S scores, B bookkeeping).
+func changedParts(a, b string) string {
+	fa, fb := strings.Fields(a), strings.Fields(b)
+	var parts []string
+	for i := range fa {
+		if i < len(fb) && fa[i] != fb[i] && len(fa[i]) > 1 {
+			if !snapSame(fa[i], fb[i]) {
+				parts = append(parts, fa[i][:1])
+			}
+		}
+	}
+	return strings.Join(parts, "")
 }
 
 func diffSnap(a, b string) string {
